@@ -78,7 +78,8 @@ fn guard_path(d: &Domain) -> (String, FilePath) {
 }
 
 fn guard_step(c: &Case, obs: &mut Obs, steps: &[vtrace::Step]) -> Result<(), Failure> {
-    let d = Domain::new();
+    let mut d = Domain::new();
+    d.config.global.creation_timeout = core::time::Duration::from_millis(100);
     let r = (|| {
         let (ps, fp) = guard_path(&d);
         let monitor = ProcessMonitor::new(&fp).map_err(|e| h(format!("{e:?}")))?;
@@ -129,7 +130,8 @@ fn guard_step(c: &Case, obs: &mut Obs, steps: &[vtrace::Step]) -> Result<(), Fai
 }
 
 fn guard_crash(c: &Case, obs: &mut Obs, steps: &[vtrace::Step]) -> Result<(), Failure> {
-    let d = Domain::new();
+    let mut d = Domain::new();
+    d.config.global.creation_timeout = core::time::Duration::from_millis(100);
     let r = (|| {
         let (ps, fp) = guard_path(&d);
         let monitor = ProcessMonitor::new(&fp).map_err(|e| h(format!("{e:?}")))?;
@@ -220,7 +222,8 @@ fn monitor_token_half_removed(d: &Domain) -> bool {
 /// earlier listing, also asks for the state of that id alone (the second half of a listing
 /// that began earlier: `list` enumerates first and queries each id afterwards).
 fn node_step(c: &Case, obs: &mut Obs) -> Result<(), Failure> {
-    let d = Domain::new();
+    let mut d = Domain::new();
+    d.config.global.creation_timeout = core::time::Duration::from_millis(100);
     let r = (|| {
         let mut t = Tracee::spawn(&exe(), &args(&d, &c.scenario, ""), &[]).map_err(h)?;
         let mut phase = String::new();
@@ -292,7 +295,7 @@ fn node_step(c: &Case, obs: &mut Obs) -> Result<(), Failure> {
 
 fn node_crash(c: &Case, obs: &mut Obs) -> Result<(), Failure> {
     let mut d = Domain::new();
-    d.config.global.creation_timeout = core::time::Duration::from_millis(50);
+    d.config.global.creation_timeout = core::time::Duration::from_millis(100);
     let r = (|| {
         let Some(mut t) = vtrace::run_to_step(&exe(), &args(&d, &c.scenario, ""), &[], c.k as usize).map_err(h)? else {
             return Ok(());
@@ -325,7 +328,8 @@ fn node_crash(c: &Case, obs: &mut Obs) -> Result<(), Failure> {
 /// Two traced processes: the observer runs the public `Node::list`; it is frozen at its j-th
 /// call, the victim advances `advance` calls from boundary k, then the observer finishes.
 fn node_interleave(c: &Case, obs: &mut Obs) -> Result<(), Failure> {
-    let d = Domain::new();
+    let mut d = Domain::new();
+    d.config.global.creation_timeout = core::time::Duration::from_millis(100);
     let r = (|| {
         let Some(mut v) = vtrace::run_to_step(&exe(), &args(&d, &c.scenario, ""), &[], c.k as usize).map_err(h)? else {
             return Ok(());
@@ -389,7 +393,8 @@ fn node_interleave(c: &Case, obs: &mut Obs) -> Result<(), Failure> {
 /// Racing cleaners: a dead node (victim killed in the middle of a pub-sub lifecycle), 2..4
 /// cleaner processes advanced call-by-call by the generated schedule.
 fn cleaners_race(c: &Case, obs: &mut Obs) -> Result<(), Failure> {
-    let d = Domain::new();
+    let mut d = Domain::new();
+    d.config.global.creation_timeout = core::time::Duration::from_millis(100);
     let r = (|| {
         // produce the dead node
         let Some(mut v) = vtrace::run_to_step(&exe(), &args(&d, "solo_pubsub", ""), &[], c.k as usize).map_err(h)? else {
@@ -492,7 +497,8 @@ fn cleaners_race(c: &Case, obs: &mut Obs) -> Result<(), Failure> {
 }
 
 fn reference(scenario: &str) -> Result<Vec<vtrace::Step>, String> {
-    let d = Domain::new();
+    let mut d = Domain::new();
+    d.config.global.creation_timeout = core::time::Duration::from_millis(100);
     let (ps, _) = guard_path(&d);
     let extra = match scenario {
         "guard_only" => ps,
@@ -600,7 +606,8 @@ fn body(ctx: &mut Ctx) {
     if ctx.part_enabled("node.interleave") {
         let lister_steps = {
             // the lister's call count depends on whether a node exists; take it with a node present
-            let d = Domain::new();
+            let mut d = Domain::new();
+    d.config.global.creation_timeout = core::time::Duration::from_millis(100);
             let n = vtrace::run_to_step(&exe(), &args(&d, "node_only", ""), &[], node_only_steps.iter().position(|s| s.phase == "node_drop").unwrap_or(0)).ok().flatten();
             let r = vtrace::reference_run(&exe(), &args(&d, "lister", d.root.join("o").to_str().unwrap()), &[]).map(|v| v.len()).unwrap_or(0);
             drop(n);
